@@ -39,7 +39,9 @@ def int1(name, method, props, check, decode, tier='quick', doc=''):
 for m, sym in (('checked_add', '+'), ('checked_sub', '-'), ('checked_mul', '*')):
     int2('int_' + m, m, ['C03', 'C01'], numeric_spec.INT[m]['kani'], ('binop', sym), doc=numeric_spec.INT[m]['doc'])
 int1('int_checked_neg', 'checked_neg', ['C03', 'C01'], numeric_spec.INT['checked_neg']['kani'], ('unop', '-'), doc=numeric_spec.INT['checked_neg']['doc'])
-int2('int_checked_div', 'checked_div', ['C03', 'C01'], numeric_spec.INT['checked_div']['kani'], ('binop', '/'), doc=numeric_spec.INT['checked_div']['doc'])
+int2('int_checked_div', 'checked_div', ['C03', 'C01'], numeric_spec.INT['checked_div']['kani'], ('binop', '/'), doc='Ok/Err partition and error payload of the quotient (b == 0 and MIN / -1 are DivisionErrors)')
+int2('int_checked_div_value', 'checked_div', ['C03'], numeric_spec.INT['checked_div']['kani_value'], ('binop', '/'), tier='thorough',
+     doc='Ok value of checked_div is the truncating quotient (|a| = |q|*|b| + rem, rem < |b|, sign rule); 150-350 s')
 int2('int_checked_rem', 'checked_rem', ['C03', 'C01'], numeric_spec.INT['checked_rem']['kani'], ('binop', '%'),
      doc='Ok/Err partition and error payload of the remainder (b == 0 and MIN % -1 are ModulationErrors)')
 
